@@ -25,6 +25,19 @@ theorem drop_releases_leaves (ρ : Nat → Nat) (ty : GTy) (a : Nat) :
     dropTy prog ρ ty a = (leaves ρ ty a).map (fun p => Ev.drop p.1 p.2) :=
   dropTy_eq ρ ty a
 
+/-- T2a, read as "exactly once": the addresses the drop function releases are, as a list (order
+    and multiplicity), the droppable leaves of the value — a leaf of size 0 counts like any other
+    (two zero-sized leaves may share an address; each is released once) — and the drop function
+    emits nothing but those releases. -/
+theorem drop_visits_leaves_exactly_once (ρ : Nat → Nat) (ty : GTy) (a : Nat) :
+    dropped (dropTy prog ρ ty a) = leaves ρ ty a
+    ∧ (dropTy prog ρ ty a).length = (leaves ρ ty a).length
+    ∧ ∀ p, (dropped (dropTy prog ρ ty a)).count p = (leaves ρ ty a).count p := by
+  have h : dropped (dropTy prog ρ ty a) = leaves ρ ty a := by
+    rw [dropTy_eq]; exact dropped_map_mkDrop _
+  refine ⟨h, ?_, fun p => by rw [h]⟩
+  rw [dropTy_eq, List.length_map]
+
 /-- T2b. The clone function of `ty` creates one host value per droppable leaf of
     the source, reading it at the leaf's address in the source and creating it at
     the same offset in the destination; no statement of the loops is stuck. -/
@@ -101,5 +114,157 @@ theorem skip_before_add_refuted :
     dropTy { prog with dropEnum := [.skipUnlessNeedsDrop, .add, .ptr .var .root, .callDrop .var] }
       (fun _ => 0) exF 1000 = [.drop 1008 1]
     ∧ leaves (fun _ => 0) exF 1000 = [(1016, 1)] := by decide
+
+/-! ## The decisions around the loops: `call_drop_of`, `call_clone_function`, `needs_drop`,
+`needs_clone`, `get_runtime_drop`, `get_runtime_clone` — as extracted, for every size including 0
+
+The theorems above are already stated over these (`dropTy` / `cloneTy` interpret `prog.dropCall`
+/ `prog.cloneCall` at every field); the following make the decisions themselves explicit. -/
+
+/-- `call_drop_of` decides by `needs_drop` and the runtime function alone; the size of the type
+    plays no role. -/
+theorem call_drop_of_decided (size : Nat) (needs rt : Bool) :
+    callActs prog.dropCall ⟨size, needs, rt⟩ =
+      if needs then (if rt then [.runtime] else [.callGen, .enqueue]) else [] :=
+  callActs_dropCall size needs rt
+
+/-- `call_clone_function` makes the same decision; the size matters only for a type that needs
+    no clone (no `memcpy` of 0 bytes). -/
+theorem call_clone_function_decided (size : Nat) (needs rt : Bool) :
+    callActs prog.cloneCall ⟨size, needs, rt⟩ =
+      if needs then (if rt then [.runtime] else [.callGen, .enqueue])
+      else if size == 0 then [] else [.memcpy size] :=
+  callActs_cloneCall size needs rt
+
+/-- A clone makes a host function run (the runtime clone function, or the generated one) exactly
+    when a drop of the same type makes one run — for every size, 0 included, every `needs` bit and
+    whether or not a runtime function exists. -/
+theorem clone_call_iff_drop_call (e : CallEnv) :
+    (callActs prog.cloneCall e).filter Act.isHost = (callActs prog.dropCall e).filter Act.isHost := by
+  obtain ⟨size, needs, rt⟩ := e
+  rw [callActs_cloneCall, callActs_dropCall]
+  cases needs <;> cases rt <;> cases size <;> rfl
+
+/-- `needs_clone` and `needs_drop`, evaluated from their extracted arms, agree on every type tree,
+    whatever the kinds, sizes and movabilities of its leaves. -/
+theorem needs_clone_iff_needs_drop (κ : Nat → Kind) (cd : Nat → Bool) (t : GTy) :
+    needsBy arms κ cd .clone t = needsBy arms κ cd .drop t :=
+  (needsBy_drop_eq_clone κ cd t).symm
+
+/-- On a type tree whose `dr` bits are what the kinds of its leaves say (String, List, registered
+    `CloneDrop` type), both extracted predicates are the closed form `needsDrop` every theorem of
+    this file uses, and both runtime lookups succeed exactly on the droppable leaves: the
+    `CallEnv` the model runs the call decisions in is the one the extracted functions compute. -/
+theorem call_env_from_arms (κ : Nat → Kind) (cd : Nat → Bool) (t : GTy) (h : Kinded κ cd t = true) :
+    callEnv t = ⟨(layoutOf t).size, needsBy arms κ cd .drop t, hasRuntimeBy runtimeDropKinds κ cd t⟩
+    ∧ callEnv t = ⟨(layoutOf t).size, needsBy arms κ cd .clone t, hasRuntimeBy runtimeCloneKinds κ cd t⟩ := by
+  simp only [callEnv, needsBy_eq κ cd _ t h, (hasRuntimeBy_eq κ cd t h).1, (hasRuntimeBy_eq κ cd t h).2,
+    and_self]
+
+/-- "needs a clone ⇔ needs a drop" for every type tree, size 0 included, over the extracted
+    decision functions: what `call_clone_function(…, t)` and `call_drop_of(…, t)` emit, each fed
+    by its own predicate (`needs_clone` / `needs_drop`) and its own lookup (`get_runtime_clone` /
+    `get_runtime_drop`), is a host call for both or for neither, of the same kind. -/
+theorem clone_needed_iff_drop_needed (κ : Nat → Kind) (cd : Nat → Bool) (t : GTy) :
+    (callActs prog.cloneCall
+        ⟨(layoutOf t).size, needsBy arms κ cd .clone t, hasRuntimeBy runtimeCloneKinds κ cd t⟩).filter Act.isHost
+    = (callActs prog.dropCall
+        ⟨(layoutOf t).size, needsBy arms κ cd .drop t, hasRuntimeBy runtimeDropKinds κ cd t⟩).filter Act.isHost := by
+  have hk : runtimeCloneKinds = runtimeDropKinds := by decide
+  rw [needs_clone_iff_needs_drop, hk]
+  exact clone_call_iff_drop_call _
+
+/-- `get_runtime_drop` returns the drop half of the `CloneDrop` pair, `get_runtime_clone` the clone half. -/
+theorem runtime_functions_not_swapped : runtimeDropField = .drop ∧ runtimeCloneField = .clone := by
+  decide
+
+/-- A droppable leaf of size 0 (a registered `#[clone]` unit struct) is cloned by its clone
+    function and dropped by its drop function like any other. -/
+theorem zero_sized_droppable_leaf_cloned_and_dropped (id a s d p : Nat) (body : List Ev) :
+    callCloneOf prog (.leaf id 0 a true) s d body = [.clone s d id]
+    ∧ callDropOf prog (.leaf id 0 a true) p body = [.drop p id] := by
+  constructor <;> rfl
+
+/-- Which body `generate_drop_body` / `generate_clone_body` give the function of a type, from
+    their extracted runtime shortcut and arms, kind by kind and whatever the size: a type whose
+    runtime lookup succeeds (String, List, `CloneDrop` registered type — the droppable leaves of
+    the model, `dr = true`) gets the runtime function on the value itself in BOTH functions; a
+    record gets the field loop and an enum the switch in both (`drop_releases_leaves` and
+    `clone_creates_leaves` are about those); every other kind releases and creates nothing (the
+    clone function of a registered `Copy` type copies its bytes). The `ice!` arms are unreachable. -/
+theorem generated_bodies_decided (k : Kind) (cd : Bool) :
+    (dropBody.body (rtFound runtimeDropKinds k cd) k = .runtime
+      ↔ cloneBody.body (rtFound runtimeCloneKinds k cd) k = .runtime)
+    ∧ (dropBody.body (rtFound runtimeDropKinds k cd) k = .runtime ↔ cloneDropOf k cd = true)
+    ∧ (k = .record → dropBody.body (rtFound runtimeDropKinds k cd) k = .arm .recordLoop
+        ∧ cloneBody.body (rtFound runtimeCloneKinds k cd) k = .arm .recordLoop)
+    ∧ (k = .enum → dropBody.body (rtFound runtimeDropKinds k cd) k = .arm .enumSwitch
+        ∧ cloneBody.body (rtFound runtimeCloneKinds k cd) k = .arm .enumSwitch)
+    ∧ dropBody.body (rtFound runtimeDropKinds k cd) k ≠ .arm .ice
+    ∧ cloneBody.body (rtFound runtimeCloneKinds k cd) k ≠ .arm .ice
+    ∧ dropBody.body (rtFound runtimeDropKinds k cd) k ≠ .none
+    ∧ cloneBody.body (rtFound runtimeCloneKinds k cd) k ≠ .none := by
+  rw [dropBody_decided, cloneBody_decided]
+  cases k <;> cases cd <;> decide
+
+/-- The vtable a list gets for its element type (`Lowerer::call_runtime`): it holds a clone
+    function exactly when it holds a drop function, namely the generated clone / drop function of
+    the element type — for every element type tree, zero-sized ones included; and on a tree whose
+    `dr` bits are what the kinds say, exactly when the element has a droppable leaf. -/
+theorem list_vtable_clone_iff_drop (κ : Nat → Kind) (cd : Nat → Bool) (t : GTy) :
+    needsBy arms κ cd vtableClone.cond t = needsBy arms κ cd vtableDrop.cond t
+    ∧ vtableClone.fn = .clone ∧ vtableDrop.fn = .drop
+    ∧ (Kinded κ cd t = true → needsBy arms κ cd vtableClone.cond t = needsDrop t) := by
+  refine ⟨?_, by decide, by decide, fun h => needsBy_eq κ cd _ t h⟩
+  have h1 : vtableClone.cond = .clone := by decide
+  have h2 : vtableDrop.cond = .drop := by decide
+  rw [h1, h2]
+  exact needs_clone_iff_needs_drop κ cd t
+
+/-! ### Non-vacuity: zero-sized leaves
+
+`Ex.tz` is a registered `#[clone]` type of size 0 (leaf id 3); `Ex.exZ` is
+`enum Z { P(u64, Tz), Q(Tz, Tk), R(Tz), N }`. -/
+
+example : Kinded (fun i => if i = 0 then .prim else if i = 2 then .string else .runtime) (fun _ => true) exZ = true := by
+  decide
+
+/-- `T(Tz, Tz)`-like: two zero-sized leaves behind one another share the address +1 and are
+    released once each -/
+example : (leaves (fun _ => 0) (.enum (.cons (.cons tz (.cons tz .nil)) .nil)) 1000).count (1001, 3) = 2
+    ∧ (dropped (dropTy prog (fun _ => 0) (.enum (.cons (.cons tz (.cons tz .nil)) .nil)) 1000)).count (1001, 3) = 2 := by
+  decide
+
+/-- `P(u64, Tz)`: the zero-sized token sits at +16 (it takes no room) and is released there -/
+example : dropTy prog (fun _ => 0) exZ 1000 = [.drop 1016 3] := by decide
+
+/-- `Q(Tz, Tk)`: the zero-sized token at +1 (right behind the tag, it takes no room), `Tk` at +8; both cloned -/
+example : cloned (cloneTy prog (fun _ => 1) exZ 1000 2000) = [(1001, 2001, 3), (1008, 2008, 1)] := by decide
+
+example : dropped (dropTy prog (fun _ => 1) exZ 2000)
+    = (cloned (cloneTy prog (fun _ => 1) exZ 1000 2000)).map dstOf :=
+  clone_drop_balanced_of_copy (fun _ => 1) (fun _ => 1) exZ 1000 2000 (fun _ => rfl)
+
+example : (callActs prog.cloneCall ⟨0, true, true⟩).filter Act.isHost = [.runtime] := by decide
+
+/-- a registered `CloneDrop` type: runtime function in both generated bodies -/
+example : dropBody.body (rtFound runtimeDropKinds .runtime true) .runtime = .runtime
+    ∧ cloneBody.body (rtFound runtimeCloneKinds .runtime true) .runtime = .runtime := by decide
+
+/-- the element vtable of `List[Z]` has both functions, that of `List[u64]` neither -/
+example : needsBy arms (fun i => if i = 0 then .prim else if i = 2 then .string else .runtime)
+    (fun _ => true) vtableClone.cond exZ = true
+    ∧ needsBy arms (fun _ => .prim) (fun _ => false) vtableDrop.cond u64 = false := by decide
+
+/-- A `call_clone_function` that tests the size first ("zero-sized values have no storage, nothing
+    to copy") and only then `needs_clone` is refuted by `R(Tz)`: the copy holds a token nobody
+    cloned, which the drop function of the copy still releases. -/
+theorem size_test_before_needs_clone_refuted :
+    let P := { prog with cloneCall := [.letSize, .ifc .sizeZero 1, .ret, .ifc .notNeeds 2, .memcpy, .ret,
+                                       .ifc .hasRuntime 2, .runtime, .ret, .callGen, .enqueue] }
+    cloned (cloneTy P (fun _ => 2) exZ 1000 2000) = []
+    ∧ dropped (dropTy P (fun _ => 2) exZ 2000) = [(2001, 3)]
+    ∧ (callActs P.cloneCall ⟨0, true, true⟩).filter Act.isHost ≠ (callActs P.dropCall ⟨0, true, true⟩).filter Act.isHost := by
+  decide
 
 end RotoV.C03
